@@ -140,8 +140,10 @@ func (m *Merger) mergeTables(colDiff *diff.ColDiff, mergeChan chan<- *Merge, err
 	for _, obj := range merges {
 		if obj.Base != nil {
 			noChanges := true
-			for _, b := range obj.Others {
-				if !bytes.Equal(b, obj.Base) {
+			for i, b := range obj.Others {
+				// identical row bytes only mean "unchanged" if the layer has the
+				// same columns as base (a renamed column keeps the bytes)
+				if !bytes.Equal(b, obj.Base) || len(colDiff.Added[i]) > 0 || len(colDiff.Removed[i]) > 0 {
 					noChanges = false
 					break
 				}
